@@ -16,6 +16,13 @@ class ModelInconsistent(RuntimeError):
 
 
 def model_predict(jobs, prop="none", workers=4, procs=None, timeout=1800, allow_l1fail=False):
+    import copy
+    jobs2 = []
+    for j in jobs:
+        if any(n["cache"] for _, n in IR.all_nodes(j["prog"])):
+            j = dict(j, prog=IR.assign_fids(copy.deepcopy(j["prog"])))
+        jobs2.append(j)
+    jobs = jobs2
     res, stats = tlc.run_batch("Predict", jobs, "HG_JOBS", cfg=f"Predict_{prop}.cfg", workers=workers, procs=procs, timeout=timeout)
     if stats["l1fail"] and not allow_l1fail:
         raise ModelInconsistent(f"L2 model violates L1 definition of {prop}: {stats['l1fail'][:10]}")
@@ -28,6 +35,9 @@ def _strip(path):
 
 def norm_model(m):
     if m.get("ismap"):
+        return m
+    if m.get("isseq"):
+        m["runs"] = [norm_model(dict(r, steps=0, pause={"path": IR.NONE, "key": IR.NONE, "value": IR.NONE})) | {"hits": [h["path"] for h in r["hits"]]} for r in m["runs"]]
         return m
     """JSON produced by ToJson -> same shape as build.observe() (map item markers "[i]" are kept in
     `ipath`/`iframe` and stripped from path/frame, as the real bodies cannot see the item index)."""
